@@ -1,20 +1,20 @@
 SPECIFICATION MCSpec
 CONSTANTS
-  Groups = {"g1","g2"}
-  Names = {"s1","s2"}
+  Groups = {"g1"}
+  Names = {"s1"}
   Dev = {}
-  Cap = 0
+  Cap = 2
   MaxLimit = 10000
   DefLimit = 1000
-  Acts = {"groups","relays","snaps"}
-  Nids = {"n1","n2"}
+  Acts = {"groups","msgs"}
+  Nids = {}
   Epochs = {1}
   Ptrs = {}
   Relays = {"r1"}
   SecEpochs = {0}
   SecVals = {1}
-  MsgIds = {1}
-  CAs = {10}
+  MsgIds = {1,2,3}
+  CAs = {10,11}
   PAs = {20}
   MsgEpochs = {}
   MsgStates = {"processed"}
@@ -39,5 +39,6 @@ CONSTANTS
 VIEW MCView
 INVARIANT TypeInv
 INVARIANT InvC10Plain
+INVARIANT InvC18
 PROPERTY PropC09Plain
 CHECK_DEADLOCK FALSE
